@@ -109,6 +109,22 @@ Theorem multi_equals_single v Lmaxs n m c :
   end.
 Proof. exact (fun Hne Hpos Hm => BinnedThm.multi_equals_single v Lmaxs n m Hne Hpos Hm c). Qed.
 
+(* the hypothesis 0 < Lmax of every point cannot be weakened to 0 <= Lmax: with an unloaded FIRST point the faithful
+   model (like the implementation: known finding C07/zero-first-point) gives every point its class-1 value and
+   rejects no load *)
+Theorem multi_equals_single_refuted_zero_first :
+  exists (Lmaxs : list Q) (c : Q),
+    Lmaxs <> [] /\ Forall (fun Lm => 0 <= Lm) Lmaxs /\
+    ~ match mbinned ex_law Lmaxs 10 10 (map (Qmult c) Lmaxs) with
+      | MVal qs => Forall2 (fun Lm q => exists q', binned ex_law Lm 10 10 (c * Lm) = Val q' /\ q' == q) Lmaxs qs
+      | MErr => Forall (fun Lm => binned ex_law Lm 10 10 (c * Lm) = Err) Lmaxs
+      end.
+Proof. exact BinnedThm.multi_equals_single_refuted_zero_first. Qed.
+
+Theorem multi_range_refuted_zero_first :
+  mres_eqb (mbinned ex_law [0; 200] 10 10 [0; 600]) (MVal [0; 60]) = true /\ binned ex_law 200 10 10 600 = Err.
+Proof. exact BinnedThm.multi_range_refuted_zero_first. Qed.
+
 (* non-vacuity: concrete evaluations of the model, and a law meeting the monotonicity hypotheses *)
 Theorem example_values :
   map (fun p => res_eqb (binned ex_law 16 4 4 (fst p)) (snd p))
@@ -142,6 +158,8 @@ Print Assumptions within_one_class_value.
 Print Assumptions monotone.
 Print Assumptions multi_table_is_single_tables.
 Print Assumptions multi_equals_single.
+Print Assumptions multi_equals_single_refuted_zero_first.
+Print Assumptions multi_range_refuted_zero_first.
 Print Assumptions example_values.
 Print Assumptions example_multi.
 Print Assumptions example_law_hypotheses.
